@@ -83,6 +83,12 @@ func (g *gzipResponseWriter) Write(b []byte) (int, error) {
 		// Stream directly without compression
 		return g.ResponseWriter.Write(b)
 	}
+	// A response that announces trailers must stay chunked: buffering it until the handler
+	// has returned would send the trailer values as ordinary headers and drop the trailer
+	if g.Header().Get("Trailer") != "" {
+		g.passThrough()
+		return g.ResponseWriter.Write(b)
+	}
 	// Check if adding this data would exceed max buffer size
 	if g.buf.Len()+len(b) > MaxCompressionBufferSize {
 		// Fall back to streaming uncompressed
